@@ -220,6 +220,7 @@ def _is_logging(st):
     return True
 
 
+CREATE_ID_PARAMS = ["number", "prefix"]   # parameter order of _create_identifier, read from its definition
 TABLE_ATTR = ["_identifiers"]       # inferred from `has`: the attribute the identifier is looked up in
 TIMEOUT_METHOD = ["_on_timeout"]     # inferred from `add`: the method handed to register_task
 PURE_HELPERS: set[str] = set()      # "self.<method>" names of RequestCache methods that only compute a value
@@ -301,7 +302,15 @@ class _Seq:
         return _is_self_attr(node, TABLE_ATTR[0])
 
     def is_create_identifier(self, node):
-        return isinstance(node, ast.Call) and _call_name(node.func) == "self._create_identifier"
+        if not (isinstance(node, ast.Call) and _call_name(node.func) == "self._create_identifier"):
+            return False
+        bound = dict(zip(CREATE_ID_PARAMS, node.args))
+        bound.update({k.arg: k.value for k in node.keywords})
+        for want in ("number", "prefix"):
+            a = bound.get(want)
+            if a is None or not ast.unparse(a).split(".")[-1] == want:
+                self.fail(f"_create_identifier is not called with the {want} as its `{want}` argument", node)
+        return True
 
     def cancel_futures_loop(self, st, of_cache_var):
         """for f, _ in <cache>.managed_futures: f.cancel()"""
@@ -315,8 +324,11 @@ class _Seq:
         if not (isinstance(tgt, ast.Tuple) and len(tgt.elts) == 2 and isinstance(tgt.elts[0], ast.Name)):
             return False
         b = st.body[0]
+        fut = tgt.elts[0].id
+        if isinstance(b, ast.If) and not b.orelse and len(b.body) == 1 and ast.unparse(b.test) == f"not {fut}.done()":
+            b = b.body[0]                                       # cancel() of a done future is a no-op anyway
         return (isinstance(b, ast.Expr) and isinstance(b.value, ast.Call) and not b.value.args
-                and _call_name(b.value.func) == tgt.elts[0].id + ".cancel")
+                and _call_name(b.value.func) == fut + ".cancel")
 
     # --- walking -------------------------------------------------------------------------------------
     def walk(self, body):
@@ -342,6 +354,11 @@ class _Seq:
                 nm = _call_name(it.context_expr.func) if isinstance(it.context_expr, ast.Call) else _call_name(it.context_expr)
                 if nm not in ("self.lock", "self._task_lock", "suppress"):
                     self.fail("unsupported context manager", st)
+                if nm == "suppress":
+                    # swallowing exceptions changes the control flow of whatever it wraps: only accepted around the
+                    # final `await gather(...)` of the cancelled tasks
+                    if not (len(st.body) == 1 and isinstance(st.body[0], ast.Expr) and isinstance(st.body[0].value, ast.Await)):
+                        self.fail("suppress(...) around anything but the awaited gather", st)
             self.walk(st.body)
             return
         if isinstance(st, ast.Try):
@@ -507,6 +524,18 @@ class _Seq:
                 self.ops.append("removeIdent")
                 return True
             self.fail("guarded statement does not remove the identifier", st)
+        if isinstance(st, ast.If) and not st.orelse and len(st.body) == 1 and isinstance(st.test, ast.Compare) \
+                and len(st.test.ops) == 1 and isinstance(st.test.ops[0], ast.Is) \
+                and ast.unparse(st.test.left).startswith("self." + TABLE_ATTR[0] + ".get(") \
+                and ast.unparse(st.test.comparators[0]) == cache:
+            r = st.body[0]
+            if (isinstance(r, ast.Expr) and isinstance(r.value, ast.Call)
+                    and _call_name(r.value.func) == ("self." + TABLE_ATTR[0] + ".pop") and self.is_ident(r.value.args[0])) \
+                    or (isinstance(r, ast.Delete) and isinstance(r.targets[0], ast.Subscript) and self.is_ident(r.targets[0].slice)):
+                # removes the entry only if it is this cache: on every reachable state (table entry of a live timer is
+                # its own cache, `table_and_timers_in_sync`) the same as removing the identifier; the run compares it
+                self.ops.append("removeIdent")
+                return True
         if isinstance(st, ast.Expr) and isinstance(st.value, ast.Call) and _call_name(st.value.func) == ("self." + TABLE_ATTR[0] + ".pop"):
             a = st.value.args
             if len(a) == 2 and self.is_ident(a[0]) and isinstance(a[1], ast.Constant) and a[1].value is None:
@@ -570,7 +599,19 @@ class _Seq:
         if isinstance(st, ast.Return) and isinstance(st.value, ast.Name) and st.value.id in self.task_vars:
             self.ops.append("returnTasks")
             return True
+        if isinstance(st, ast.Return) and isinstance(st.value, ast.Call) \
+                and _call_name(st.value.func) == "self.cancel_all_pending_tasks" and not st.value.args:
+            self.ops += ["cancelAllTasks", "returnTasks"]
+            return True
         return False
+
+    # --- shutdown_task_manager (override) -----------------------------------------------------------
+    def stmt_shutdown_task_manager(self, st):
+        if isinstance(st, ast.Expr) and isinstance(st.value, ast.Await) and isinstance(st.value.value, ast.Call) \
+                and ast.unparse(st.value.value) == "super().shutdown_task_manager()":
+            self.ops.append("superShutdown")
+            return True
+        return self.stmt_shutdown(st)
 
     # --- shutdown ---------------------------------------------------------------------------------
     def stmt_shutdown(self, st):
@@ -666,12 +707,14 @@ def check_delay_rule(sq, cls_node):
 
 PRIMS = ["assertDelay", "shutdownGate", "dupGuard", "registerTask", "storeIdent", "resolveWaiter", "returnAdded",
          "popIdent", "cancelTask", "returnClaimed", "removeIdent", "callOnTimeout", "completeFutures",
-         "cancelAllTasks", "clearIdents", "returnTasks", "setShutdown", "cancelRegisteredFutures", "awaitTasks"]
+         "cancelAllTasks", "clearIdents", "returnTasks", "setShutdown", "cancelRegisteredFutures", "awaitTasks",
+         "superShutdown"]
 
 
 def extract_ops(src: str) -> dict:
     tree = ast.parse(src)
     out = {}
+    CREATE_ID_PARAMS[:] = [a.arg for a in _find(tree.body, "RequestCache", "_create_identifier").args.args[1:]]
     # names that a refactor may change: the identifier table attribute and the timeout method
     has = _find(tree.body, "RequestCache", "has")
     tabs = [c.comparators[0].attr for c in ast.walk(has) if isinstance(c, ast.Compare) and len(c.ops) == 1
@@ -695,6 +738,14 @@ def extract_ops(src: str) -> dict:
             check_delay_rule(sq, _find(tree.body, "RequestCache"))
         if m == "_on_timeout":
             out["_on_timeout_abort"] = sq.abort_ops
+    cls_node = _find(tree.body, "RequestCache")
+    ov = [f for f in cls_node.body if isinstance(f, ast.AsyncFunctionDef) and f.name == "shutdown_task_manager"]
+    if ov:
+        sq = _Seq("shutdown_task_manager", ov[0])
+        sq.walk(ov[0].body)
+        out["shutdown_task_manager"] = sq.ops
+    else:
+        out["shutdown_task_manager"] = ["superShutdown"]       # inherited unchanged from TaskManager
     if out["_on_timeout"].count("callOnTimeout") != 1:
         _fail("_on_timeout does not call cache.on_timeout() exactly once")
     return out
@@ -711,6 +762,8 @@ def extract_done_cb(src: str) -> bool:
     fut = cb.args.args[0].arg
 
     def is_pop(st):
+        if isinstance(st, ast.Delete) and len(st.targets) == 1 and ast.unparse(st.targets[0]) == "self._pending_tasks[name]":
+            return True
         return (isinstance(st, ast.Expr) and isinstance(st.value, ast.Call)
                 and _call_name(st.value.func) == "self._pending_tasks.pop" and st.value.args
                 and isinstance(st.value.args[0], ast.Name) and st.value.args[0].id == "name")
@@ -778,6 +831,8 @@ def onTimeoutOps : List Prim := {lst("_on_timeout")}
 def onTimeoutAbortOps : List Prim := {lst("_on_timeout_abort")}
 /-- RequestCache.clear, in source order -/
 def clearOps : List Prim := {lst("clear")}
+/-- RequestCache.shutdown_task_manager (the override; `[.superShutdown]` if the method is inherited unchanged) -/
+def tmShutdownOps : List Prim := {lst("shutdown_task_manager")}
 /-- RequestCache.shutdown, in source order -/
 def shutdownOps : List Prim := {lst("shutdown")}
 
